@@ -15,12 +15,16 @@ with what each resolver does (the "world" folded into the operation):
                                    variant 0..5: which ResolverError class / instance is raised
                                    (plain, with extensions, subclasses with one-argument /
                                    multi-positional / keyword-only constructors, a shared instance)
+            | ["echo"]             the resolver returns the coerced value of its argument `dflt`: the one
+                                   passed in f["args"], else the default declared by the *concrete*
+                                   parent type (T: 100, T2: 200, Q: 300, M: 400); Coq: BInt of that
             | ["snull"]            the resolver returns a non-null value of the custom scalar Sc
                                    that *serialises to null* (completes to null)
             | ["sbad", x]          ... a value whose serialisation raises (RuntimeError tagged x
                                    raised by complete_value, not by the resolver)
             | ["obj", [fld, ...]] | ["list", inn, "int"|"obj"|"sc"|"abs", [item, ...]]
-    item    = ["null"] | ["int", z] | ["obj", [fld, ...]] | ["snull"] (in an "sc" list)
+    item    = ["null"] | ["int", z] | ["obj", [fld, ...]] | ["obj", [fld, ...], "T2"] (concrete type of
+              an item of an "abs" list; default "T") | ["snull"] (in an "sc" list)
             | ["bad"] (in an "abs" list: a list of the union type U; the item cannot be completed --
               U.resolve_type raises a ResolverError for it). Library policy: the items before it are
               started and run to completion, the items after it are never started, then the whole
@@ -70,7 +74,7 @@ import warnings
 # an early failure legitimately leaves sibling coroutines un-awaited (lazy coroutines)
 warnings.filterwarnings("ignore", category=RuntimeWarning, message="coroutine .* was never awaited")
 
-CONFIGS = ["bexec", "brt", "aio", "aiot", "pool", "poole"]  # poole: pool + calls that finish before submit returns
+CONFIGS = ["bexec", "brt", "aio", "aiot", "pool", "poole", "prom"]   # prom: a third-party Runtime (sched.PromiseRuntime)  # poole: pool + calls that finish before submit returns
 MODES = ["S", "P", "C", "D", "A", "V"]
 # schema field names: shape + mode (+ variant 0..2 for A and V, whose value is looked up by
 # *name* on the parent: two response keys of one parent must not share such a field)
@@ -152,7 +156,7 @@ class BadItem:
 def _resolve_u(value, _ctx, _info):
     if isinstance(value, BadItem):
         raise ResolverError("resolver error: untypable list item")
-    return "T"
+    return value._tname
 
 
 class ScNull:
@@ -199,16 +203,29 @@ def allowed_args(mode):
     return [a for a in ARG_POOL if mode in ("P", "C") or a not in ARGS_NOT_FOR_DEFAULT_RESOLVER]
 
 
+# every field also declares `dflt: Int`, whose *default differs per concrete type*; T and T2 implement
+# the interface IF (which declares it without default). An ["echo"] leaf returns the `dflt` it
+# received, so the expected value depends on the concrete parent type (or on f["args"]["dflt"]).
+DFLT = {"T": 100, "T2": 200, "Q": 300, "M": 400}
+
+
 def _sdl(layout="distinct"):
-    args = "(%s)" % ", ".join("%s: Int" % a for a in ARG_POOL)
-    fields = "\n".join("  %s%s%s: %s" % (sh, m, args, SHAPES[sh][0]) for sh in SHAPES for m in FIELD_SUFFIXES)
+    def fields(default):
+        args = "(%s, dflt: Int%s)" % (", ".join("%s: Int" % a for a in ARG_POOL),
+                                      "" if default is None else " = %d" % default)
+        return "\n".join("  %s%s%s: %s" % (sh, m, args, SHAPES[sh][0]) for sh in SHAPES for m in FIELD_SUFFIXES)
+
     q, mu, types = LAYOUTS[layout]
-    return ("scalar Sc\nunion U = T\nschema { query: %s mutation: %s }\n" % (q, mu)
-            + "".join("type %s {\n%s\n}\n" % (t, fields) for t in types))
+    out = "scalar Sc\nunion U = T | T2\nschema { query: %s mutation: %s }\n" % (q, mu)
+    out += "interface IF {\n%s\n}\n" % fields(None)
+    for t in sorted(set(types) | {"T2"}):
+        impl = " implements IF" if t in ("T", "T2") else ""
+        out += "type %s%s {\n%s\n}\n" % (t, impl, fields(DFLT[t]))
+    return out
 
 
 def deferred(fld, config):
-    if config in ("pool", "poole", "aiot"):
+    if config in ("pool", "poole", "aiot", "prom"):
         return fld["m"] in ("P", "C", "D")
     if config == "aio":
         return fld["m"] in ("C", "D")
@@ -261,7 +278,9 @@ def doc_of(program):
                     for g in it[1]:
                         merged.setdefault(g["k"], g)
             inner = sel([merged[k] for k in sorted(merged)], None, "T") if merged else "__typename"
-            sub = " { ... on T { %s } }" % inner if b[2] == "abs" else " { %s }" % inner
+            # items of the union are T or T2: one selection on the interface both implement, i.e. one
+            # AST field node executed against each concrete type
+            sub = " { ... on IF { %s } }" % inner if b[2] == "abs" else " { %s }" % inner
         elif SHAPES[shape_of(f)][2] in ("obj", "lobj", "lobjn", "labs", "labsn"):
             sub = " { __typename }"
         args = ""
@@ -354,7 +373,7 @@ def ordered_program(program):
             if b[0] == "obj":
                 f = dict(f, b=["obj", reorder(b[1], ch)])
             elif b[0] == "list" and b[2] in ("obj", "abs"):
-                f = dict(f, b=b[:3] + [[["obj", reorder(it[1], ch)] if it[0] == "obj" else it for it in b[3]]])
+                f = dict(f, b=b[:3] + [[["obj", reorder(it[1], ch)] + it[2:] if it[0] == "obj" else it for it in b[3]]])
             out.append(f)
         return out
 
@@ -391,9 +410,10 @@ class Obj:
     """a resolved object, for the default resolver: S fields are methods returning a plain
     value, D fields methods returning a deferred value, A fields plain attributes"""
 
-    def __init__(self, run, path):
+    def __init__(self, run, path, tname="T"):
         self._run = run
         self._path = path
+        self._tname = tname
 
     def __getattr__(self, name):
         if name.startswith("_"):
@@ -410,9 +430,10 @@ class Obj:
 class DictObj(Mapping):
     """a resolved object that is a Mapping: the default resolver returns root.get(name)"""
 
-    def __init__(self, run, path):
+    def __init__(self, run, path, tname="T"):
         self._run = run
         self._path = path
+        self._tname = tname
 
     def get(self, name, default=None):
         if name[-2:-1] != "V":
@@ -439,9 +460,9 @@ class _Run:
         self.config = config
         self.ctl = ctl
 
-    def obj(self, path, fields):
+    def obj(self, path, fields, tname="T"):
         kind = DictObj if any(f["m"] == "V" for f in fields) else Obj
-        return kind(self, path)
+        return kind(self, path, tname)
 
     def lookup(self, parent_path, name):
         """an attribute / dict value of the parent: evaluated (and logged) when the default
@@ -451,10 +472,12 @@ class _Run:
         self.ctl.log("finish", (p, 0))
         return self.behave(self.world[p], p)
 
-    def behave(self, fld, p):
+    def behave(self, fld, p, a=None):
         b = fld["b"]
         if b[0] == "int":
             return b[1]
+        if b[0] == "echo":
+            return (a or {}).get("dflt")     # the coerced argument the resolver received
         if b[0] == "null":
             return None
         if b[0] == "err":
@@ -471,7 +494,7 @@ class _Run:
         for i, it in enumerate(b[3]):
             out.append(None if it[0] == "null" else it[1] if it[0] == "int"
                        else ScNull() if it[0] == "snull" else BadItem() if it[0] == "bad"
-                       else self.obj(p + (i,), it[1]))
+                       else self.obj(p + (i,), it[1], it[2] if len(it) > 2 else "T"))
         return out
 
     # S everywhere; P/C under the blocking configurations; P under asyncio
@@ -479,7 +502,7 @@ class _Run:
         p = tuple(info.path)
         self.ctl.log("invoke", (p, 0))
         self.ctl.log("finish", (p, 0))
-        return self.behave(self.world[p], p)
+        return self.behave(self.world[p], p, _a)
 
     # D: a method of the parent object (default resolver) that returns a deferred value
     def method_deferred(self, ctx, info, /, **a):
@@ -500,7 +523,7 @@ class _Run:
         def level(l):
             if l < fld["lv"]:
                 return self.ctl.defer((p, l + 1), level, l + 1)
-            return self.behave(fld, p)
+            return self.behave(fld, p, _a)
 
         return level(0)
 
@@ -514,11 +537,11 @@ class _Run:
             await self.ctl.gate((p, l))
             if l < fld["lv"]:
                 return level(l + 1)
-            return self.behave(fld, p)
+            return self.behave(fld, p, _a)
 
         if fld["lv"] > 0:
             return level(1)
-        return self.behave(fld, p)
+        return self.behave(fld, p, _a)
 
     # C under asyncio
     async def coro(self, _root, _ctx, info, /, **_a):
@@ -529,7 +552,7 @@ class _Run:
             await self.ctl.gate((p, l))
             if l < fld["lv"]:
                 return level(l + 1)
-            return self.behave(fld, p)
+            return self.behave(fld, p, _a)
 
         return await level(0)
 
@@ -552,7 +575,7 @@ def _schema(config, run_box, layout="distinct"):
         return _SCHEMAS[(config, layout)]
     schema = build_schema(_sdl(layout), additional_types=[_sc_type()])
     schema.get_type("U").resolve_type = _resolve_u
-    for tname in LAYOUTS[layout][2]:
+    for tname in sorted(set(LAYOUTS[layout][2]) | {"T2"}):
         for sh in SHAPES:
             for m in ("P", "C"):
                 if config in ("aio", "aiot") and m == "C":
@@ -706,9 +729,11 @@ def run_scheduled(program, config, choose, timeout=None):
                 return True
             return False
         ctl = sched.PoolController(eager=is_eager)
+    elif config == "prom":
+        ctl = sched.PromiseController()
     else:
         ctl = sched.PoolController() if config == "pool" else sched.LoopController(config == "aiot")
-    base = "pool" if config == "poole" else config
+    base = "pool" if config in ("poole", "prom") else config
     try:
         run = _Run(program, base, ctl)
         _BOX[0] = run
@@ -780,15 +805,18 @@ def cz(n):
     return "(%d)%%Z" % n
 
 
-def c_fld(f, config):
+def c_fld(f, config, ptype="T"):
     d = "(Some (N.to_nat %d, O))" % f["lv"] if deferred(f, config) else "None"
-    return "(Fld %d %s %s %s)" % (f["k"], d, "true" if f["nn"] else "false", c_body(f["b"], config))
+    b = f["b"]
+    if b[0] == "echo":     # the value the resolver must have received for `dflt`
+        b = ["int", f.get("args", {}).get("dflt", DFLT[ptype])]
+    return "(Fld %d %s %s %s)" % (f["k"], d, "true" if f["nn"] else "false", c_body(b, config))
 
 
-def c_flds(fs, config):
+def c_flds(fs, config, ptype="T"):
     out = "FNil"
     for f in reversed(fs):
-        out = "(FCons %s %s)" % (c_fld(f, config), out)
+        out = "(FCons %s %s)" % (c_fld(f, config, ptype), out)
     return out
 
 
@@ -817,7 +845,7 @@ def c_body(b, config):
         elif it[0] == "int":
             t = "(ItInt %s)" % cz(it[1])
         else:
-            t = "(ItObj %s)" % c_flds(it[1], config)
+            t = "(ItObj %s)" % c_flds(it[1], config, it[2] if len(it) > 2 else "T")
         items = "(ICons %s %s)" % (t, items)
     return "(BList %s %s)" % ("true" if b[1] else "false", items)
 
@@ -825,7 +853,7 @@ def c_body(b, config):
 def c_prog(program, config):
     program = ordered_program(program)   # field order = first-occurrence order in the document
     return "(Prog %s %s)" % ("true" if program["op"] == "mutation" else "false",
-                             c_flds(program["fields"], config))
+                             c_flds(program["fields"], config, _root_type(program)))
 
 
 def c_val(v):
